@@ -76,10 +76,51 @@ FilterAgrees == \A f \in AllFiles : SevSeq(Kept(f)) = KeepSevs(SevSeq(Diags(f)),
 \* exit status can be read off the kept diagnostics
 ExitFromKept == (ExpExit = 1) <=> \E f \in MainFiles : IsSome(f) /\ \E i \in DOMAIN Kept(f) : IsFailing(Kept(f)[i].sev, wae)
 
+\* ---- the cross product {--severity} x {--warnings-as-errors} x {highest severity present} ----------
+\* (strengthened after seeded review.)  The property says the exit status is decided by the diagnostics that
+\* are REPORTED, i.e. after the --severity filter.  An implementation that decides before the filter differs
+\* from the reference exactly where the strongest diagnostic of the workspace lies BELOW the filter while it
+\* would still fail the run: the generator therefore labels every case with its cell <<flt, wae, top>> and
+\* with `decides` (the filter changes the exit status); the driver must run every cell, and every `decides`
+\* cell in every output format.  TLC checks that the configured alphabets realise every cell.
+NoSev == 5                                   \* "no diagnostic at all" (empty workspace or enable = FALSE)
+SevOfO(o, c) == IF o[c] = 0 THEN DefaultSev(c) ELSE o[c]
+SevsOfWs(w, o, e) == IF e THEN {SevOfO(o, CodeOf(w[f][i])) : <<f, i>> \in {<<g, j>> \in MainFiles \X (1..8) : j <= Len(w[g])}}
+                          ELSE {}
+TopOfWs(w, o, e) == LET S == SevsOfWs(w, o, e) IN IF S = {} THEN NoSev ELSE CHOOSE s \in S : \A t \in S : s <= t
+Top == TopOfWs(ws, ovr, enable)
+Tops == 1..NoSev
+
+SomeLists == {SevSeq(Diags(f)) : f \in {g \in MainFiles : IsSome(g)}}
+ExitUnfiltered == ExitOfLists(SomeLists, 0, wae)       \* what a decision taken BEFORE the filter would give
+Decides == ExitUnfiltered # ExpExit                    \* the filter decides the exit status of this case
+
+\* Top is the strongest severity really present in what diagnose_file returns
+TopAgrees == /\ (Top = NoSev) <=> (\A l \in SomeLists : l = <<>>)
+             /\ Top # NoSev => /\ \E l \in SomeLists : \E i \in DOMAIN l : l[i] = Top
+                               /\ \A l \in SomeLists : \A i \in DOMAIN l : l[i] >= Top
+\* the exit status is a function of the cell alone: 1 iff the strongest diagnostic passes the filter and fails
+ExitOfCell(f, w, t) == IF t # NoSev /\ Allows(f, t) /\ IsFailing(t, w) THEN 1 ELSE 0
+ExitByCell == ExpExit = ExitOfCell(flt, wae, Top)
+\* the only cell in which filtering first / deciding first differ: warnings only, promoted, filtered out
+DecidesCell == Decides <=> (flt = 1 /\ wae /\ Top = 2)
+
+\* every cell of Filters x BOOLEAN x Tops is realised by the configured alphabets (flt and wae are chosen
+\* independently of the workspace in Init, so covering every value of Top is enough)
+OvrSpace == {("undefined-global" :> ug) @@ ("unbalanced-assignments" :> ua) @@ ("unused" :> un) @@ ("syntax-error" :> se) :
+               ug \in OvrUG, ua \in OvrUA, un \in OvrUN, se \in OvrSE}
+WsSpace == {[a |-> ca, b |-> cb, c |-> cc, l |-> cl] :
+              ca \in ContentsA, cb \in ContentsB, cc \in ContentsC, cl \in ContentsL}
+ASSUME CrossCovered ==
+  \A t \in Tops : \E w \in WsSpace, o \in OvrSpace, e \in Enables :
+      (e \/ \A c \in Codes : o[c] = 0) /\ TopOfWs(w, o, e) = t
+ASSUME FiltersComplete == Filters = FilterVals
+
 Emit == PrintT(<<"CASE", ToJson([
             ws |-> ws, ovr |-> ovr, enable |-> enable, flt |-> flt, wae |-> wae, out |-> out,
             some |-> [f \in MainFiles |-> IsSome(f)],
             diags |-> [f \in AllFiles |-> Diags(f)],
             kept |-> [f \in MainFiles |-> IF IsSome(f) THEN Kept(f) ELSE <<>>],
+            top |-> Top, decides |-> Decides, exit_unfiltered |-> ExitUnfiltered,
             exit |-> ExpExit])>>)
 =============================================================================
